@@ -63,7 +63,10 @@ Inductive obj :=
 | OInt (z : Z)
 | OBool (b : bool)
 | OSeq (items : list obj)                       (* any other Iterable *)
-| ONone.                                        (* None / anything no branch applies to *)
+| ONone                                         (* None *)
+| OOther (descr : string) (iter_raises : bool). (* any other value: no branch applies and nothing is appended
+                                                   (numpy integer / float32 / bool scalars, complex, ...); an
+                                                   Iterable whose iteration raises (0-d array) raises *)
 
 Inductive sel := SFields (fs : list string) | SAll | SCtor (args excl : list string).
 
@@ -122,6 +125,7 @@ Section Walk.
     | OSeq l => (fix go (l : list obj) : list string :=
                    match l with [] => [] | x :: r => tokens x ++ go r end) l
     | ONone => []
+    | OOther _ _ => []
     end.
 End Walk.
 
@@ -143,6 +147,7 @@ Fixpoint raises (o : obj) : bool :=
       any_visible ((fix go (l : list (string * obj)) : list (string * bool) :=
                       match l with [] => [] | kv :: r => match kv with (k, v) => (k, raises v) :: go r end end) items)
   | OSeq l => (fix go (l : list obj) : bool := match l with [] => false | x :: r => raises x || go r end) l
+  | OOther _ r => r
   | _ => false
   end.
 
@@ -252,6 +257,7 @@ Fixpoint obj_eqb (a b : obj) : bool :=
          | _, _ => false
          end) l m
   | ONone, ONone => true
+  | OOther d r, OOther d' r' => String.eqb d d' && Bool.eqb r r'
   | _, _ => false
   end.
 
